@@ -87,7 +87,7 @@ func c19Run(t *testing.T, p c19Plan) (res vfResult) {
 				mod(&so, &to)
 			}
 			so.Normalize()
-			if err := r.DeployService(name, []string{target}, so, to, 5*time.Second, time.Second); err != nil {
+			if err := vfDeploy(r, name, []string{target}, so, to, 5*time.Second, time.Second); err != nil {
 				res.failf("setup-failed", "deploy %s: %v", name, err)
 				return false
 			}
@@ -107,10 +107,10 @@ func c19Run(t *testing.T, p c19Plan) (res vfResult) {
 			return
 		}
 		w.noteWait(300 * time.Millisecond)
-		r.PauseService("paused", time.Second, 300*time.Millisecond)
-		r.StopService("stopped", time.Second, "closed")
+		vfPause(r, "paused", time.Second, 300*time.Millisecond)
+		vfStop(r, "stopped", time.Second, "closed")
 		synctest.Wait()
-		f := w.front(NewServer(&Config{HttpPort: 80, HttpsPort: 443}, r).buildHandler(), "front:80")
+		f := w.front(r, "front:80")
 
 		records := func(from int) []vfLogRec {
 			var out []vfLogRec
